@@ -4,6 +4,8 @@ coupling invariant (`step_sim`), label by label.
 -/
 import Sonic.Lemmas.WsAsyncObsRel
 
+set_option linter.unusedSimpArgs false
+
 namespace Sonic.Model.WsAsyncObs
 open Sonic.Model.WsAsync
 open Sonic.Spec.WsStream (Bytes StreamState replyCode closeCodeOf u16 isViolation controlOp)
@@ -551,5 +553,327 @@ theorem sim_resume_arm {s : St} {o : Ob} {m : MS} {cb : CbId} {rk : RKind} {ok :
       (fun hh => ⟨hh, h.hl hh⟩) (fun hh => hh)
   exact coup_pop (s := { s with rd := some (cb, rk) }) h1 hst rfl m rfl rfl rfl rfl rfl rfl hstk hl
     (fun c hc => ⟨c, hc, rfl, rfl, rfl⟩) (fun c hc => ⟨c, hc, rfl⟩)
+
+/-! ### A callback is entered -/
+
+theorem payloads_eq (fs : List CFrame) : payloads fs = Sonic.Spec.WsAsync.payloadsOf fs := rfl
+
+/-- The delivery check of the monitor for the read callback that is about to be entered. -/
+theorem deliver_read {s : St} {o : Ob} {m : MS} {cb : CbId} {r : Res} {rest : List Task} (h : Coup max s o m [])
+    (hst : s.stack = .invoke cb r true :: rest) (hk : (kindOf o cb).isRead = true) :
+    ∃ s1, deliver m (kindOf o cb) (resOf r) (if kindOf o cb == .read then o.cur else none)
+        (if kindOf o cb == .readMsg then some (o.macc ++ payloads o.held ++ payloads o.cur.toList) else none) = .ok s1 ∧
+      s1.max = m.max ∧ s1.cbs = m.cbs ∧ s1.stack = m.stack ∧ s1.expect = m.expect ∧ s1.last = m.last ∧
+      s1.healthy = m.healthy ∧
+      (s1.synced = true → s.ws ≠ .terminated → s1.inq = o.inboxC ++ o.net ∧ s1.macc = []) := by
+  have hw := h.win
+  unfold Window at hw
+  rw [hst] at hw
+  obtain ⟨hnc, heof, hwr, hwm⟩ := hw
+  have hloc : ((cb, LK.r) : CbId × LK) ∈ locs s := by
+    simp only [locs, hst, List.flatMap_cons, taskK, if_true, List.mem_append, List.mem_cons]; mem_or
+  obtain ⟨b, hrdr, _, _⟩ := h.rdr2 _ hloc rfl
+  have hk3 := h.rdr3 cb b hrdr
+  -- a result other than ok / proto keeps `synced` only for eof, and then the stream is terminated
+  have hsync : ∀ (x : Bool), (m.synced && x) = true → (x = true → r = .eof) → s.ws ≠ .terminated → False := by
+    intro x hx hxe hne
+    simp only [Bool.and_eq_true] at hx
+    exact hne (heof (hxe hx.2))
+  cases hkk : kindOf o cb with
+  | read =>
+    have hbf : b = false := by
+      cases b with
+      | false => rfl
+      | true => rw [hkk] at hk3; cases hk3
+    have hmacc : o.macc = [] := (h.rdr4 (fun cb' e => by rw [hrdr, hbf] at e; cases e)).2
+    obtain ⟨hheld, hcur⟩ := hwr hkk
+    simp only [deliver, beq_self_eq_true, if_true, Sonic.Spec.WsAsync.deliverFrame]
+    cases hsy : m.synced with
+    | false => exact ⟨m, rfl, rfl, rfl, rfl, rfl, rfl, rfl, fun h1 => by rw [hsy] at h1; cases h1⟩
+    | true =>
+      simp only [Bool.not_true, Bool.false_eq_true, if_false]
+      cases hc : o.cur with
+      | none =>
+        refine ⟨_, rfl, rfl, rfl, rfl, rfl, rfl, rfl, fun h1 hne => ?_⟩
+        exfalso
+        refine hsync _ (by rw [hsy]; exact h1) (fun hx => ?_) hne
+        cases r <;> simp [resOf] at hx hnc ⊢
+      | some g =>
+        simp only []
+        by_cases hcons : (resOf r == Sonic.Spec.WsAsync.Res.ok || (resOf r == .proto && isViolation g)) = true
+        · rw [if_pos hcons]
+          have hr : r = .ok ∨ r = .proto := by cases r <;> simp [resOf] at hcons ⊢
+          obtain ⟨g', hg', hne⟩ := hcur hr
+          rw [hc] at hg'; cases hg'
+          obtain ⟨hinq, hma⟩ := h.rdq hsy hne
+          rw [hheld, hc] at hinq
+          simp only [List.nil_append, Option.toList_some, List.cons_append] at hinq
+          rw [hinq]
+          simp only [beq_self_eq_true, if_true]
+          exact ⟨_, rfl, rfl, rfl, rfl, rfl, rfl, rfl, fun _ _ => ⟨rfl, by rw [show _ = m.macc from rfl, hma, hmacc]⟩⟩
+        · rw [if_neg hcons]
+          refine ⟨_, rfl, rfl, rfl, rfl, rfl, rfl, rfl, fun h1 hne => ?_⟩
+          exfalso
+          refine hsync _ (by rw [hsy]; exact h1) (fun hx => ?_) hne
+          cases r <;> simp [resOf] at hx ⊢
+  | readMsg =>
+    simp only [deliver, Sonic.Spec.WsAsync.deliverMsg, show (Kind.readMsg == Kind.readMsg) = true from rfl, if_true]
+    cases hsy : m.synced with
+    | false => exact ⟨m, rfl, rfl, rfl, rfl, rfl, rfl, rfl, fun h1 => by rw [hsy] at h1; cases h1⟩
+    | true =>
+      simp only [Bool.not_true, Bool.false_eq_true, if_false]
+      by_cases hok : (resOf r == Sonic.Spec.WsAsync.Res.ok) = true
+      · rw [if_pos hok]
+        have hr : r = .ok := by cases r <;> simp [resOf] at hok ⊢
+        obtain ⟨g, hg, hfin, hctl, hne⟩ := hwm hkk hr
+        obtain ⟨hinq, hma⟩ := h.rdq hsy hne
+        rw [hg] at hinq
+        simp only [Option.toList_some, List.nil_append, List.append_assoc, List.cons_append] at hinq
+        have htd := Sonic.Spec.WsAsync.takeData_frags (g :: (o.inboxC ++ o.net)) o.held m.macc (m.inq.length + 1) h.heldOk
+          (by rw [hinq]; simp; omega)
+        rw [← hinq] at htd
+        have hpos : m.inq.length + 1 - o.held.length = (m.inq.length - o.held.length) + 1 := by
+          rw [hinq]; simp; omega
+        rw [hpos] at htd
+        simp only [Sonic.Spec.WsAsync.takeData, hctl, hfin, Bool.false_eq_true, if_false, if_true] at htd
+        rw [htd]
+        simp only [Bool.true_and]
+        rw [hg, hma, payloads_eq, payloads_eq]
+        simp only [Option.toList_some, Sonic.Spec.WsAsync.payloadsOf, List.flatMap_cons, List.flatMap_nil, List.append_nil,
+          beq_self_eq_true, if_true]
+        exact ⟨_, rfl, rfl, rfl, rfl, rfl, rfl, rfl, fun _ _ => ⟨rfl, rfl⟩⟩
+      · rw [if_neg hok]
+        refine ⟨_, rfl, rfl, rfl, rfl, rfl, rfl, rfl, fun h1 hne => ?_⟩
+        exfalso
+        refine hsync _ (by rw [hsy]; exact h1) (fun hx => ?_) hne
+        cases r <;> simp [resOf] at hx hok hnc ⊢
+  | _ => rw [hkk] at hk; cases hk
+
+theorem enter_owed {s : St} (hI : Inv s) {cb : CbId} {r : Res} {isRead : Bool} {rest : List Task}
+    (hst : s.stack = .invoke cb r isRead :: rest) : cb ∈ s.started ∧ cb ∉ s.log := by
+  have h1 := hI.cbs cb
+  have h2 := hI.nodup.count (a := cb)
+  have h3 : 1 ≤ (owedList s).countP (·.1 == cb) := by
+    simp [owedList, hst, List.flatMap_cons, taskCbs, List.countP_append]
+    omega
+  constructor
+  · exact List.count_pos_iff.1 (by omega)
+  · intro hl
+    have : 0 < s.log.count cb := List.count_pos_iff.2 hl
+    split at h2 <;> omega
+
+theorem enter_stack_ns {cb : CbId} {rest : List Task} (as : List Action) (hr : ∀ t ∈ rest, special t = false) :
+    ∀ t ∈ as.map Task.call ++ Task.exit cb :: rest, special t = false := by
+  intro t ht
+  rcases List.mem_append.1 ht with h1 | h1
+  · obtain ⟨a, _, rfl⟩ := List.mem_map.1 h1; rfl
+  · rcases List.mem_cons.1 h1 with rfl | h2
+    · rfl
+    · exact hr t h2
+
+theorem enter_stack_shape {cb : CbId} {rest : List Task} (as : List Action) :
+    (as.map Task.call ++ Task.exit cb :: rest).filterMap shapeT = .handler cb :: rest.filterMap shapeT := by
+  induction as with
+  | nil => rfl
+  | cons a r ih => simpa [List.filterMap_cons, shapeT] using ih
+
+theorem enter_locs {s : St} {cb : CbId} {r : Res} {isRead : Bool} {rest : List Task} (as : List Action) (lg : List CbId)
+    (rb : Bool) (hst : s.stack = .invoke cb r isRead :: rest) {p : CbId × LK}
+    (hp : p ∈ locs { s with stack := as.map Task.call ++ Task.exit cb :: rest, log := lg, readBusy := rb }) : p ∈ locs s := by
+  have hcalls : (as.map Task.call).flatMap taskK = [] := by
+    induction as with
+    | nil => rfl
+    | cons a r ih => simp [List.flatMap_cons, taskK, ih]
+  simp only [locs, wrK, rdK, hst, List.flatMap_append, hcalls, List.flatMap_cons, taskK, List.nil_append, List.mem_append] at hp ⊢
+  rcases hp with ((h | h) | h) | h <;> mem_or
+
+theorem head_of_ns {st : List Task} (h : ∀ t ∈ st, special t = false) : ∀ t r, st = t :: r → special t = false :=
+  fun t r e => h t (e ▸ List.mem_cons_self ..)
+
+theorem sim_enter {s s' : St} {o : Ob} {m : MS} {cb : CbId} {r : Res} (hI : Inv s) (hI' : Inv s')
+    (h : Coup max s o m []) (hs : step true prog s (.enter cb r) = some s') :
+    ∃ m', mrun m [.enter cb (resOf r) (if kindOf o cb == .read then o.cur else none)
+        (if kindOf o cb == .readMsg then some (o.macc ++ payloads o.held ++ payloads o.cur.toList) else none)
+        (stOf s'.ws)] = .ok m' ∧
+      Coup max s' (if (kindOf o cb).isRead then { o with held := [], cur := none, macc := [], reader := none } else o) m' [] := by
+  simp only [step] at hs
+  split at hs
+  · rename_i cb' r' isRead rest hst
+    split at hs
+    · rename_i hcr
+      obtain ⟨rfl, rfl⟩ := hcr
+      cases hs
+      obtain ⟨hstarted, hlog⟩ := enter_owed hI hst
+      obtain ⟨c0, hc0, hc0id⟩ := h.ledAll cb hstarted
+      have hsome := Sonic.Spec.WsAsync.findCb_isSome_of_mem hc0
+      rw [hc0id] at hsome
+      obtain ⟨c, hfc⟩ := Option.isSome_iff_exists.1 hsome
+      obtain ⟨hcm, hcid⟩ := Sonic.Spec.WsAsync.findCb_some hfc
+      obtain ⟨_, hcdone, hckind⟩ := h.ledMem c hcm
+      rw [hcid] at hcdone hckind
+      have hdone : c.done = false := by rw [hcdone]; simpa using hlog
+      have hloc : ((cb, if isRead then LK.r else LK.w) : CbId × LK) ∈ locs s := by
+        simp only [locs, hst, List.flatMap_cons, taskK, List.mem_append, List.mem_cons]; mem_or
+      have hcomp := h.chain _ hloc
+      have hrestns : ∀ t ∈ rest, special t = false := fun t ht => h.spec t (by rw [hst]; exact ht)
+      have hstk := h.stk
+      rw [hst, List.filterMap_cons] at hstk
+      have hw := h.win
+      unfold Window at hw
+      rw [hst] at hw
+      -- ledger clauses after `entered`
+      have hled : ∀ (s1 : MS) (ws : List Want), s1.cbs = m.cbs →
+          (∀ c' ∈ (setCb (addW s1 ws) { c with done := true }).cbs,
+            c'.id ∈ s.started ∧ c'.done = decide (c'.id ∈ s.log ++ [cb]) ∧ c'.kind = kindOf o c'.id) ∧
+          (∀ cb0 ∈ s.started, ∃ c' ∈ (setCb (addW s1 ws) { c with done := true }).cbs, c'.id = cb0) := by
+        intro s1 ws hcbs
+        constructor
+        · intro c' hc'
+          rcases Sonic.Spec.WsAsync.mem_setCb.1 hc' with rfl | ⟨h1, h2⟩
+          · refine ⟨by rw [show ({ c with done := true } : Cb).id = c.id from rfl, hcid]; exact hstarted, ?_, ?_⟩
+            · show true = _
+              rw [show ({ c with done := true } : Cb).id = c.id from rfl, hcid]; simp
+            · show c.kind = kindOf o c.id
+              rw [hcid]; exact hckind
+          · have h1' : c' ∈ m.cbs := hcbs ▸ h1
+            obtain ⟨g1, g2, g3⟩ := h.ledMem c' h1'
+            refine ⟨g1, ?_, g3⟩
+            rw [g2]
+            have : c'.id ≠ cb := fun e => h2 (by rw [e]; exact hcid.symm)
+            simp [this]
+        · intro cb0 hcb0
+          obtain ⟨c1, hc1, e1⟩ := h.ledAll cb0 hcb0
+          by_cases e : c1.id = c.id
+          · exact ⟨{ c with done := true }, Sonic.Spec.WsAsync.mem_setCb.2 (Or.inl rfl), by rw [← e1, e]⟩
+          · exact ⟨c1, Sonic.Spec.WsAsync.mem_setCb.2 (Or.inr ⟨hcbs ▸ hc1, e⟩), e1⟩
+      cases isRead with
+      | false =>
+        have hkf : (kindOf o cb).isRead = false := hcomp
+        have hk1 : (kindOf o cb == Kind.read) = false := by cases hkk : kindOf o cb <;> simp_all [Kind.isRead]
+        have hk2 : (kindOf o cb == Kind.readMsg) = false := by cases hkk : kindOf o cb <;> simp_all [Kind.isRead]
+        obtain ⟨hcur, hnp, hinl, hla⟩ := hw
+        simp only [hk1, hk2, hkf, Bool.false_eq_true, if_false]
+        have hdel : deliver m c.kind (resOf r) none none = .ok m := by
+          rw [hckind]
+          cases hkk : kindOf o cb <;> simp_all [deliver, Kind.isRead] <;> rfl
+        have h1 : (!c.kind.isRead && c.returned && resOf r != Sonic.Spec.WsAsync.Res.ok && m.healthy) = false := by
+          rw [hckind, hkf]
+          cases r with
+          | ok => simp [resOf]
+          | err =>
+            have := h.errs cb (by rw [hst]; exact List.mem_cons_self ..)
+            simp [this]
+          | proto => exact absurd rfl hnp
+          | cancelled =>
+            obtain ⟨c1, hc1, hr1⟩ := hinl (Or.inl rfl)
+            rw [hfc] at hc1; cases hc1; simp [hr1]
+          | eof =>
+            obtain ⟨c1, hc1, hr1⟩ := hinl (Or.inr (Or.inl rfl))
+            rw [hfc] at hc1; cases hc1; simp [hr1]
+          | tooBig =>
+            obtain ⟨c1, hc1, hr1⟩ := hinl (Or.inr (Or.inr rfl))
+            rw [hfc] at hc1; cases hc1; simp [hr1]
+        have h2 : (!c.kind.isRead && !c.returned && (resOf r == Sonic.Spec.WsAsync.Res.cancelled || resOf r == .eof) &&
+            m.last == StreamState.active) = false := by
+          cases r with
+          | cancelled => have := hla (Or.inl rfl); simp [this]
+          | eof => have := hla (Or.inr rfl); simp [this]
+          | _ => simp [resOf]
+        refine ⟨entered m c cb (resOf r) none (stOf s.ws), mrun_single (Sonic.Spec.WsAsync.step_enter hfc hdone h1 h2 hdel), ?_⟩
+        have hep : enterPush c.kind m.last (stOf s.ws) (resOf r) none = [] := by
+          rw [hckind]; simp [enterPush, failW, hkf]
+        obtain ⟨hl1, hl2⟩ := hled m (enterPush c.kind m.last (stOf s.ws) (resOf r) none) rfl
+        have hns' := enter_stack_ns (cb := cb) (prog cb) hrestns
+        refine ⟨h.max, hl1, hl2, ?_, fun t ht => hns' t (List.mem_of_mem_tail ht), ?_, ?_, Or.inl rfl, h.subF, h.subM, ?_, h.inb,
+          h.rdq, h.heldOk, window_of_not_special (head_of_ns hns') hcur, fun p hp => h.chain p (enter_locs _ _ _ hst hp),
+          h.rdr1, fun p hp => h.rdr2 p (enter_locs _ _ _ hst hp), h.rdr3, h.rdr4, h.rdCan⟩
+        · show (Sonic.Spec.WsAsync.Frame.handler cb :: m.stack).map shapeF = _
+          rw [enter_stack_shape, List.map_cons, hstk]; rfl
+        · intro cb1 hc1
+          have : Task.invoke cb1 .err false ∈ rest := by
+            rcases List.mem_append.1 hc1 with h3 | h3
+            · obtain ⟨a, _, e⟩ := List.mem_map.1 h3; cases e
+            · rcases List.mem_cons.1 h3 with e | h4
+              · cases e
+              · exact h4
+          have := h.errs cb1 (by rw [hst]; exact List.mem_cons_of_mem _ this)
+          show (m.healthy && _) = false
+          simp [this]
+        · intro hh
+          have : m.healthy = true := by
+            have : (m.healthy && resOf r != Sonic.Spec.WsAsync.Res.err) = true := hh
+            simp only [Bool.and_eq_true] at this; exact this.1
+          exact h.hl this
+        · intro hh
+          have hmh : m.healthy = true := by
+            have : (m.healthy && resOf r != Sonic.Spec.WsAsync.Res.err) = true := hh
+            simp only [Bool.and_eq_true] at this; exact this.1
+          have he := h.exp hmh
+          rw [show pendW s o m.last = [] from by simp [pendW, hst], List.append_nil] at he
+          show (m.expect ++ enterPush c.kind m.last (stOf s.ws) (resOf r) none) ++ pendW _ o _ = _
+          rw [hep, List.append_nil, pendW_of_not_special (s := _) o _ (head_of_ns hns'), List.append_nil]
+          exact he
+      | true =>
+        have hkt : (kindOf o cb).isRead = true := hcomp
+        obtain ⟨s1, hdel, e1, e2, e3, e4, e5, e6, hq⟩ := deliver_read h hst hkt
+        simp only [hkt, if_true]
+        have h1 : (!c.kind.isRead && c.returned && resOf r != Sonic.Spec.WsAsync.Res.ok && m.healthy) = false := by
+          rw [hckind, hkt]; simp
+        have h2 : (!c.kind.isRead && !c.returned && (resOf r == Sonic.Spec.WsAsync.Res.cancelled || resOf r == .eof) &&
+            m.last == StreamState.active) = false := by
+          rw [hckind, hkt]; simp
+        have hdel' : deliver m c.kind (resOf r) (if kindOf o cb == .read then o.cur else none)
+            (if kindOf o cb == .readMsg then some (o.macc ++ payloads o.held ++ payloads o.cur.toList) else none) = .ok s1 := by
+          rw [hckind]; exact hdel
+        refine ⟨entered s1 c cb (resOf r) (if kindOf o cb == .read then o.cur else none) (stOf s.ws),
+          mrun_single (Sonic.Spec.WsAsync.step_enter hfc hdone h1 h2 hdel'), ?_⟩
+        obtain ⟨hl1, hl2⟩ := hled s1 (enterPush c.kind s1.last (stOf s.ws) (resOf r) (if kindOf o cb == .read then o.cur else none)) e2
+        have hns' := enter_stack_ns (cb := cb) (prog cb) hrestns
+        refine ⟨e1.trans h.max, hl1, hl2, ?_, fun t ht => hns' t (List.mem_of_mem_tail ht), ?_, ?_, Or.inl rfl, h.subF, h.subM, ?_,
+          h.inb, ?_, (fun g hg => by cases hg), window_of_not_special (head_of_ns hns') rfl,
+          fun p hp => h.chain p (enter_locs _ _ _ hst hp), rfl, ?_, (fun cb b e => by cases e), fun _ => ⟨rfl, rfl⟩, h.rdCan⟩
+        · show (Sonic.Spec.WsAsync.Frame.handler cb :: s1.stack).map shapeF = _
+          rw [enter_stack_shape, List.map_cons, e3, hstk]; rfl
+        · intro cb1 hc1
+          have : Task.invoke cb1 .err false ∈ rest := by
+            rcases List.mem_append.1 hc1 with h3 | h3
+            · obtain ⟨a, _, e⟩ := List.mem_map.1 h3; cases e
+            · rcases List.mem_cons.1 h3 with e | h4
+              · cases e
+              · exact h4
+          have := h.errs cb1 (by rw [hst]; exact List.mem_cons_of_mem _ this)
+          show (s1.healthy && _) = false
+          rw [e6]; simp [this]
+        · intro hh
+          have : (s1.healthy && resOf r != Sonic.Spec.WsAsync.Res.err) = true := hh
+          rw [e6] at this
+          simp only [Bool.and_eq_true] at this
+          exact h.hl this.1
+        · intro hh
+          have hmh : m.healthy = true := by
+            have : (s1.healthy && resOf r != Sonic.Spec.WsAsync.Res.err) = true := hh
+            rw [e6] at this
+            simp only [Bool.and_eq_true] at this; exact this.1
+          have he := h.exp hmh
+          show (s1.expect ++ enterPush c.kind s1.last (stOf s.ws) (resOf r) (if kindOf o cb == .read then o.cur else none)) ++
+            pendW _ _ _ = (o.sub.drop o.reported).map (·.want)
+          rw [pendW_of_not_special (s := _) _ _ (head_of_ns hns'), List.append_nil, e4, e5, hckind]
+          rw [show pendW s o m.last = enterPush (kindOf o cb) m.last (stOf s.ws) (resOf r)
+            (if kindOf o cb == .read then o.cur else none) from by simp only [pendW, hst]] at he
+          exact he
+        · intro hsy hne
+          obtain ⟨g1, g2⟩ := hq hsy hne
+          refine ⟨?_, g2⟩
+          show s1.inq = [] ++ [] ++ [] ++ o.inboxC ++ o.net
+          rw [g1]; simp
+        · intro p hp hrp
+          exfalso
+          have hreads := hI'.reads
+          have hmem := List.mem_map_of_mem (f := eraseK) hp
+          rw [← owed_eq_locs] at hmem
+          have := List.countP_pos_iff.2 ⟨eraseK p, hmem, (show (eraseK p).2 = true from hrp)⟩
+          exact absurd hreads (Nat.ne_of_gt this)
+    · cases hs
+  · cases hs
 
 end Sonic.Model.WsAsyncObs
